@@ -113,7 +113,17 @@ def evaluate(case, world, *, caching=True, times=1, **kw):
     (enable_caching if caching else disable_caching)()
     try:
         form = kw.get("form", "set_of")
+        take_first, keep_first = kw.pop("take_first", 0), kw.pop("keep_first", False)
         q, xs, sel_exprs = build(case, world, **kw)
+        if take_first:      # an earlier evaluation that is left after a few rows: closed, or suspended and kept alive
+            it = iter(q.evaluate())
+            for _ in range(take_first):
+                if next(it, None) is None:
+                    break
+            if keep_first:
+                kept = it
+            else:
+                it.close()
         return [rows(q, sel_exprs, world, form) for _ in range(times)]
     finally:
         enable_caching()
